@@ -114,7 +114,7 @@ class Reg(Logic):
         
         if not(self.r is None): msg += 'R'
         if not(self.e is None): msg += 'E'
-        if not(self.reset_value == 0): msg += '_v{}'.format(self.reset_value)
+        if not(self.reset_value == 0): msg += '_v{}'.format(self.reset_value).replace('-', 'm') # must be an identifier
         
         return msg
             
